@@ -144,9 +144,14 @@ class AkomaNtosoParser:
                     s = ""
                     while True:
                         s += self.dedent + "\n"
-                        if level >= stack[-1]:
+                        # never close the outermost block
+                        if level >= stack[-1] or len(stack) == 2:
                             break
                         stack.pop()
+
+                    # if we landed between two open levels, the block we are now in takes on this
+                    # line's level, so that later lines with the same indent stay in this block
+                    stack[-1] = level
 
                     return s + match.group(2)
 
